@@ -125,6 +125,8 @@ class World:
                                                             z3.Not(is_msg(newnode(e))))),
                             patterns=[newnode(e)]))
         ax.append(born(null) == 0)
+        # message nodes exist at entry
+        ax.append(z3.ForAll([u], z3.Implies(is_msg(u), born(u) == 0), patterns=[is_msg(u)]))
         for sv in self.sentinels.values():
             # a sentinel is an object(), never the text of an element
             ax.append(z3.ForAll([u], text(u) != sv, patterns=[text(u)]))
